@@ -129,3 +129,47 @@ func verifH_C40_lazy_setup_once() {
 		verifAssert(err == nil && hookCalls == before, "once bound, later requests do not fire the hook")
 	}
 }
+
+// An observer that never passes the gate — a metrics scrape, a handler on another
+// transport — reads the binding while a first request is establishing it.
+//
+//verif:sched quick=3 thorough=4
+//verif:race
+//verif:bound one first request running notifyTransport(HTTP) (hook absent, succeeding or failing once) and TransportKind, and one observer goroutine reading TransportKind and TransportCapabilities without ever calling notifyTransport; ALL interleavings with at most 3 (4) preemptions; happens-before race detection on the binding fields
+func verifH_C40_observer() {
+	s := &Server{serverID: "srv", methods: map[string]*methodInfo{}}
+	hookMode := verifChoice("hook", 3)
+	calls := 0
+	if hookMode > 0 {
+		s.serveStartHook = func(kind TransportKind, caps map[string]bool) error {
+			calls++
+			verifYield()
+			if hookMode == 2 && calls == 1 {
+				return errors.New("startup hook failed")
+			}
+			return nil
+		}
+	}
+	observed := TransportKind("?")
+	var observedCaps map[string]bool
+	var err error
+	var wg sync.WaitGroup
+	wg.Add(2)
+	go func() {
+		defer wg.Done()
+		err = s.notifyTransport(TransportKindHTTP, map[string]bool{"shm": false})
+		_ = s.TransportKind()
+	}()
+	go func() {
+		defer wg.Done()
+		observed = s.TransportKind()
+		observedCaps = s.TransportCapabilities()
+	}()
+	wg.Wait()
+	verifReach("observed")
+	verifAssert(observed == "" || observed == TransportKindHTTP, "an observer sees the server unbound or bound to HTTP, nothing in between")
+	if len(observedCaps) > 0 {
+		verifAssert(s.TransportKind() == TransportKindHTTP, "capabilities are visible only once the binding is committed")
+	}
+	verifAssert((err != nil) == (hookMode == 2), "the request fails exactly when its hook run failed")
+}
